@@ -273,7 +273,10 @@ def run_property(prop, argv):
                     discharged += 1
                 for idx in res.get('spec_violations', [])[:3]:
                     small = suite.shrink(wd, inputs[idx], 'spec_violations')
-                    failing.append((suite, small, suite.describe(small, suite.execute(small))))
+                    desc = suite.describe(small, suite.execute(small))
+                    if isinstance(desc, dict) and small is not inputs[idx]:
+                        desc['unshrunk'] = suite.describe(inputs[idx], observeds[idx])   # the generated case
+                    failing.append((suite, small, desc))
                 for kf in known:
                     if kf.get('suite') != suite.name:
                         continue
